@@ -23,6 +23,8 @@ fi
 cd /verif
 out=$(VERIF_REPO=$wt timeout 1200 bin/check $id --tier quick 2>&1); rc=$?
 mkdir -p /verif/build/seedtest; echo "$out" > /verif/build/seedtest/$(basename $d).log
-for b in /verif/build/$id-alt-*; do [ -d "$b" ] && cp $b/${id}_*.json /verif/build/seedtest/ 2>/dev/null; rm -rf "$b"; done
+h=$(python3 -c "import hashlib,os,sys;print(hashlib.md5(os.path.realpath(sys.argv[1]).encode()).hexdigest()[:6])" $wt)
+b=/verif/build/$id-alt-$h   # only this run's own scratch build directory (concurrent seedtests of one property must not disturb each other)
+[ -d "$b" ] && { mkdir -p /verif/build/seedtest/$(basename $d); cp $b/${id}_*.json /verif/build/seedtest/$(basename $d)/ 2>/dev/null; rm -rf "$b"; }
 echo "$out" | grep -E "VIOLATION|KNOWN-FINDING|done:" | tail -5
 if [ $rc -ne 0 ] && echo "$out" | grep -q "^VIOLATION property=$id"; then echo "RESULT $(basename $d) $id DETECTED"; else echo "RESULT $(basename $d) $id MISSED rc=$rc"; fi
